@@ -448,6 +448,8 @@ class MessageManager(interfaces.TokenInterface, interfaces.MessageManager):
             )
             message.mid = None
 
+        piggybacked_on = None
+
         if message.code.is_response():
             no_response = (message.opt.no_response or 0) & (
                 1 << message.code.class_ - 1
@@ -468,6 +470,7 @@ class MessageManager(interfaces.TokenInterface, interfaces.MessageManager):
                 else:
                     message.mtype = ACK
                     message.mid = mid
+                    piggybacked_on = mid
             else:
                 if no_response:
                     self.log.debug(
@@ -519,6 +522,9 @@ class MessageManager(interfaces.TokenInterface, interfaces.MessageManager):
             assert any(
                 remote == message.remote for (remote, _) in self._active_exchanges
             )
+            # Held-back messages are serialized out of their sender's sight;
+            # trying it now, while an error can still be reported to the sender
+            message.encode()
             self.log.debug("Message to %s put into backlog", message.remote)
             entry = (message, messageerror_monitor)
             self._backlogs[message.remote].append(entry)
@@ -531,7 +537,16 @@ class MessageManager(interfaces.TokenInterface, interfaces.MessageManager):
 
             return cancel_backlogged
         else:
-            self._send_initially(message, messageerror_monitor)
+            try:
+                self._send_initially(message, messageerror_monitor)
+            except Exception:
+                if piggybacked_on is not None:
+                    # The acknowledgement the request was waiting for went
+                    # down with the response that was to carry it
+                    self._send_empty_ack(
+                        message.remote, piggybacked_on, "response could not be sent"
+                    )
+                raise
 
     def _send_initially(self, message, messageerror_monitor=None):
         """Put the message on the wire for the first time, starting retransmission timeouts"""
@@ -544,9 +559,19 @@ class MessageManager(interfaces.TokenInterface, interfaces.MessageManager):
             )
             self._add_exchange(message, messageerror_monitor)
 
-        self._store_response_for_duplicates(message)
+        try:
+            self._send_via_transport(message)
+        except Exception:
+            # A message that could not even be serialized was never on the
+            # wire: there is no exchange to retransmit (which would fail the
+            # same way every time while holding back everything else for that
+            # remote) and no reply to repeat for duplicates. The caller gets
+            # to see the error.
+            if message.mtype is CON:
+                self._remove_exchange(message)
+            raise
 
-        self._send_via_transport(message)
+        self._store_response_for_duplicates(message)
 
     def _send_via_transport(self, message):
         """Put the message on the wire"""
